@@ -7,7 +7,9 @@ PID = "C32"
 RULE = ("The real abigail::workers::queue (abg-workers.cc compiled with -DLIBABIGAIL_VERIF, so that every pthread call of "
         "that file goes through verif_hooks::hooks()) driven by the harness cxx/c32_sched.cc, which owns the schedule: worker "
         "threads are real threads but only one runs at a time; every mutex / condition-variable / create / join call, the "
-        "body of each task and the notifier are scheduling points; the harness keeps mutex owners and condition-variable "
+        "body of each task and the notifier are scheduling points (in the --fine configurations also the instant before the "
+        "effect of unlock / cond_wait / signal / broadcast and the instant after a lock is acquired, so code between two "
+        "hooked calls can be separated from them); the harness keeps mutex owners and condition-variable "
         "waiter sets, cond_signal wakes exactly one waiter chosen by the schedule, one spurious wake-up per run is allowed. A "
         "schedule is a sequence of choices. (a) Stateless depth-first enumeration of ALL schedules with at most B preemptions "
         "for small configurations (workers x tasks: 1x0..2, 2x0..2, 3x1; B = 2, or 1 for the largest): exhaustive for that "
@@ -25,9 +27,32 @@ DFS = {"quick": [(1, 0, 2, 5000), (1, 1, 2, 5000), (1, 2, 2, 40000), (2, 0, 2, 2
        "thorough": [(1, 0, 3, 10 ** 6), (1, 1, 3, 10 ** 6), (1, 2, 3, 10 ** 6), (1, 3, 2, 10 ** 6), (2, 0, 3, 10 ** 6), (2, 1, 3, 3 * 10 ** 6),
                     (2, 2, 2, 3 * 10 ** 6), (2, 3, 2, 3 * 10 ** 6), (3, 0, 3, 3 * 10 ** 6), (3, 1, 2, 3 * 10 ** 6), (3, 2, 2, 3 * 10 ** 6),
                     (3, 3, 1, 3 * 10 ** 6), (3, 4, 1, 3 * 10 ** 6), (2, 4, 1, 3 * 10 ** 6)]}
+# the same with the finer scheduling points (--fine): a yield also before the effect of unlock / cond_wait / signal /
+# broadcast and after a lock is acquired, so that a predicate evaluated just before cond_wait, or a flag stored just after
+# unlock, can be separated from the call by another thread (seeded change C32-1 needs exactly that)
+DFS_FINE = {"quick": [(1, 0, 2, 5000), (1, 1, 2, 20000), (1, 2, 2, 60000), (2, 0, 2, 60000), (2, 1, 1, 100000), (3, 0, 1, 100000)],
+            "thorough": [(1, 0, 3, 10 ** 6), (1, 1, 3, 10 ** 6), (1, 2, 3, 10 ** 6), (1, 3, 2, 10 ** 6), (2, 0, 3, 10 ** 6),
+                         (2, 1, 2, 3 * 10 ** 6), (2, 2, 1, 3 * 10 ** 6), (3, 0, 2, 3 * 10 ** 6), (3, 1, 1, 3 * 10 ** 6)]}
+RANDOM_FINE = {"quick": [(2, 5, 300), (4, 20, 100), (8, 50, 40), (3, 7, 300)],
+               "thorough": [(2, 5, 10000), (4, 20, 4000), (8, 50, 2000), (16, 100, 600), (3, 7, 10000)]}
 RANDOM = {"quick": [(2, 5, 400), (4, 20, 200), (8, 50, 100), (16, 100, 40), (16, 400, 8), (3, 7, 400)],
           "thorough": [(2, 5, 20000), (4, 20, 8000), (8, 50, 4000), (16, 100, 1500), (16, 2000, 40), (3, 7, 20000), (5, 13, 8000),
                        (12, 300, 300)]}
+
+
+def replay_record(rec, where):
+    exe = build.ensure_harness("c32_sched", "plain", ["c32_sched.cc"], extra_ld=[])
+    out = os.path.join(build.BUILD, "run", PID + "-replay.json")
+    os.makedirs(os.path.dirname(out), exist_ok=True)
+    args = ["--replay", str(rec["workers"]), str(rec["tasks"]), rec["schedule"]] + (["--fine"] if rec.get("fine") else [])
+    subprocess.run([exe] + args + ["--out", out], stdout=subprocess.PIPE, stderr=subprocess.PIPE, timeout=600)
+    st = json.load(open(out))
+    if st["failure"]:
+        print("VIOLATION property=%s replay=%s" % (PID, where))
+        print(json.dumps({"failure": st["failure"], "schedule": st["witness"]}))
+        return 1
+    print("replay of %s: property held" % where)
+    return 0
 
 
 def main(tier):
@@ -38,14 +63,18 @@ def main(tier):
     shutil.rmtree(rdir, ignore_errors=True)
     os.makedirs(rdir)
     jobs = [("dfs", ["--dfs", str(w), str(t), str(b), str(mx)]) for w, t, b, mx in DFS[tier]] + \
-           [("random", ["--random", str(w), str(t), str(n), str(seedv * 97 + k)]) for k, (w, t, n) in enumerate(RANDOM[tier])]
+           [("dfs-fine", ["--dfs", str(w), str(t), str(b), str(mx), "--fine"]) for w, t, b, mx in DFS_FINE[tier]] + \
+           [("random", ["--random", str(w), str(t), str(n), str(seedv * 97 + k)]) for k, (w, t, n) in enumerate(RANDOM[tier])] + \
+           [("random-fine", ["--random", str(w), str(t), str(n), str(seedv * 89 + k), "--fine"])
+            for k, (w, t, n) in enumerate(RANDOM_FINE[tier])]
     # regression / finding replays
     for sub in ("corpus", "findings"):
         d = os.path.join(build.VERIF, sub, PID)
         if os.path.isdir(d):
             for f in sorted(os.listdir(d)):
                 rec = json.load(open(os.path.join(d, f)))
-                jobs.append(("replay", ["--replay", str(rec["workers"]), str(rec["tasks"]), rec["schedule"]]))
+                jobs.append(("replay", ["--replay", str(rec["workers"]), str(rec["tasks"]), rec["schedule"]] +
+                             (["--fine"] if rec.get("fine") else [])))
 
     def one(ij):
         i, (kind, args) = ij
@@ -76,7 +105,7 @@ def main(tier):
         nontrivial += st["nontrivial"]
         configs.append({"mode": kind, "workers": st["workers"], "tasks": st["tasks"], "schedules": st["runs"],
                         "exhausted_within_bound": st["exhausted"], "args": args[3:]})
-        if kind == "dfs" and not st["exhausted"] and not st["failure"]:
+        if kind.startswith("dfs") and not st["exhausted"] and not st["failure"]:
             all_exhausted = False
         for s in st["samples"][:1]:
             samples.append({"workers": st["workers"], "tasks": st["tasks"], "mode": kind, "schedule": s[:200]})
@@ -84,8 +113,10 @@ def main(tier):
             key = st["failure"].split(":")[0].split(" ")[0] if st["failure"].startswith("deadlock") else st["failure"][:60]
             d = os.path.join(build.BUILD, "replays", PID, "w%dt%d-%d" % (st["workers"], st["tasks"], abs(hash(st["witness"])) % 10 ** 6))
             os.makedirs(d, exist_ok=True)
+            fine = "--fine" in args
             json.dump({"property": PID, "key": key, "workers": st["workers"], "tasks": st["tasks"], "schedule": st["witness"],
-                       "failure": st["failure"], "replay_cmd": "%s --replay %d %d %s" % (exe, st["workers"], st["tasks"], st["witness"])},
+                       "fine": fine, "failure": st["failure"],
+                       "replay_cmd": "%s --replay %d %d %s%s" % (exe, st["workers"], st["tasks"], st["witness"], " --fine" if fine else "")},
                       open(os.path.join(d, "case.json"), "w"), indent=1)
             if key in known:
                 lines.append("KNOWN-FINDING: property=%s %s: %s" % (PID, key, known[key]["what"]))
